@@ -155,10 +155,86 @@ theorem setdefault_refines (p : Path) (isTuple : Bool) (dflt : Entry) (kids : Ki
 /-- `clear`: deleting the root keys one by one empties the dict -/
 theorem clear_refines (kids : Kids) : clearT (.node kids) = specClear (.node kids) := clear_refines_aux kids
 
+/-- `unflatten_keys(sep)`: the loop of `rename_key_(key, key.split(sep), safe=True)` over the root keys (in place or on
+the shallow copy) equals the replay on the dict, including which keys are refused and what has already been moved
+when a key is refused. -/
+theorem unflatten_refines (sep : Char) (inplace : Bool) (kids : Kids) (hw : WF (.node kids)) :
+    (unflattenT sep inplace (.node kids)).1 = (specUnflatten sep inplace (.node kids)).1 ∧
+    (unflattenT sep inplace (.node kids)).2.erase = (specUnflatten sep inplace (.node kids)).2.erase := by
+  have h := unflattenLoop_refines sep (rootKeys (.node kids)) kids hw
+  simp only [unflattenT, specUnflatten]
+  cases h1 : unflattenLoop sep (rootKeys (.node kids)) (.node kids) with
+  | mk t1 o1 =>
+    cases h2 : specUnflattenLoop sep (rootKeys (.node kids)) (.node kids) with
+    | mk t2 o2 =>
+      rw [h1, h2] at h
+      obtain ⟨hs, ho⟩ := h
+      simp only at hs ho; subst hs
+      cases inplace <;> cases o1 <;> cases o2 <;> simp [Out.erase] at ho ⊢
+
+/-- `exclude(*keys)` (repaired): popping the string keys, grouping the nested keys by their first component and
+recursing into the nested tensordicts equals deleting every listed entry if present — whatever the order of the keys,
+with keys that are prefixes of one another, absent keys and keys running through a leaf. -/
+theorem exclude_refines (keys : List Path) (inplace : Bool) (kids : Kids) (hw : WF (.node kids))
+    (hk : ∀ p ∈ keys, p ≠ []) :
+    excludeT keys inplace (.node kids) =
+      (if inplace then (specExclude keys (.node kids), .ok) else (.node kids, .res [specExclude keys (.node kids)])) :=
+  excludeT_refines keys inplace kids hw hk
+
+/-- …and the result does not depend on the order in which the keys are listed -/
+theorem exclude_order_independent (k1 k2 : List Path) (kids : Kids) (hw : WF (.node kids))
+    (h1 : ∀ p ∈ k1, p ≠ []) (h2 : ∀ p ∈ k2, p ≠ []) (hperm : k1.Perm k2) :
+    specExclude k1 (.node kids) = specExclude k2 (.node kids) := by
+  rw [specExclude_eq_sx k1 kids hw h1, specExclude_eq_sx k2 kids hw h2]
+  congr 1
+  -- induction on the depth of the tree through a size bound
+  have main : ∀ (n : Nat) (x y : List Path) (l : Kids), entrySize.kidsSize l ≤ n → x.Perm y → sx x l = sx y l := by
+    intro n
+    induction n with
+    | zero =>
+      intro x y l hl hp
+      cases l with
+      | nil => simp [sx]
+      | cons kv r => obtain ⟨k, e⟩ := kv; cases e <;> simp [entrySize.kidsSize, entrySize] at hl
+    | succ n ihn =>
+      intro x y l hl hp
+      induction l with
+      | nil => simp [sx]
+      | cons kv r ihl =>
+        obtain ⟨k, e⟩ := kv
+        have hc : x.contains [k] = y.contains [k] := by
+          have := hp.mem_iff (a := [k])
+          cases hx : x.contains [k] <;> cases hy : y.contains [k] <;> simp_all
+        have hr : entrySize.kidsSize r ≤ n + 1 := by
+          simp only [entrySize.kidsSize] at hl; omega
+        by_cases h : x.contains [k] = true
+        · rw [sx_cons_hit e r h, sx_cons_hit e r (by rw [← hc]; exact h), ihl hr]
+        · have h' : x.contains [k] = false := by simpa using h
+          rw [sx_cons_miss e r h', sx_cons_miss e r (by rw [← hc]; exact h'), ihl hr]
+          congr 2
+          cases e with
+          | leaf nt v => rfl
+          | node sub =>
+            simp only [sxE]
+            have hs : entrySize.kidsSize sub ≤ n := by
+              simp only [entrySize.kidsSize, entrySize] at hl; omega
+            have hpt : (tailsOf k x).Perm (tailsOf k y) := by simp only [tailsOf]; exact hp.filterMap _
+            rw [ihn _ _ sub hs hpt]
+  exact main _ k1 k2 kids (Nat.le_refl _) hperm
+
+/-- `update(payload)` (dict payload, tuple keys allowed, nested dict values): descending into the nested tensordict
+that a dict value meets (`target.update({subkey: value})` / `target.update(value)`) and `_set_tuple` for everything
+else equals the merge on the plain dict, item by item, with the same stopping point when an item cannot be written. -/
+theorem update_refines (items : List (Path × Entry)) (kids : Kids) :
+    (updateF (updFuel items) items (.node kids)).1 = (specUpdate items (.node kids)).1 ∧
+    okU (updateF (updFuel items) items (.node kids)).2 = okU (specUpdate items (.node kids)).2 :=
+  updateF_spec (updFuel items) items kids (Nat.le_refl _)
+
 /-- One step. FULL STATEMENT (not yet proved for every operation):
       ∀ op, InScope t op → step t op ≈ dstep t op      with `dstep` defined for all thirteen operations.
-    Proved here for the core operations set / del / pop / rename_key_ / setdefault / clear / empty
-    (`InScope` is `False` for update, select, exclude, flatten_keys, unflatten_keys, split_keys: their
+    Proved here for set / del / pop / rename_key_ / setdefault / clear / empty / unflatten_keys (in place and out of
+    place) / flatten_keys (out of place) / exclude (in place and out of place) / update.
+    (`InScope` is `False` for select, flatten_keys in place, split_keys: their
     transcriptions are tied to the code by the correspondence run and judged by the Python dict oracle). -/
 theorem refines_partial (kids : Kids) (hw : WF (.node kids)) (op : Op) (hs : InScope (.node kids) op) :
     (step (.node kids) op).1 = (dstep (.node kids) op).1 ∧
@@ -179,11 +255,27 @@ theorem refines_partial (kids : Kids) (hw : WF (.node kids)) (op : Op) (hs : InS
   | setdefault p tup v => exact setdefault_refines p tup v kids hs.2
   | clear => simp [step, dstep, clear_refines]
   | empty => simp [step, dstep, emptyT]
-  | update _ => exact absurd hs (by simp [InScope])
+  | update items =>
+    have h := update_refines items kids
+    simp only [step, dstep, updateT] at h ⊢
+    cases h1 : updateF (updFuel items) items (.node kids) with
+    | mk t1 o1 =>
+      cases h2 : specUpdate items (.node kids) with
+      | mk t2 o2 =>
+        rw [h1, h2] at h
+        obtain ⟨hs1, ho⟩ := h
+        simp only at hs1 ho; subst hs1
+        cases o1 <;> cases o2 <;> simp [okU, Out.erase] at ho ⊢
   | select _ _ _ => exact absurd hs (by simp [InScope])
-  | exclude _ _ => exact absurd hs (by simp [InScope])
-  | flatten _ _ => exact absurd hs (by simp [InScope])
-  | unflatten _ _ => exact absurd hs (by simp [InScope])
+  | exclude keys inplace =>
+    simp only [step, dstep, excludeT_refines keys inplace kids hw hs]
+    cases inplace <;> simp
+  | flatten sep inplace =>
+    have hi : inplace = false := hs
+    subst hi
+    simp only [step, dstep, Bool.false_eq_true, if_false, flattenOut_eq]
+    by_cases hn : (flatNames sep (.node kids)).Nodup <;> simp [hn, Out.erase]
+  | unflatten sep inplace => exact unflatten_refines sep inplace kids hw
   | split _ _ _ => exact absurd hs (by simp [InScope])
 
 /-- the replay keeps the state a well-formed node (so the refinement can be chained) -/
@@ -267,11 +359,34 @@ theorem dstep_good (kids : Kids) (hw : WF (.node kids)) (op : Op) (hs : InScope 
             all_goals (obtain ⟨a, _, rfl⟩ := hi; exact ⟨_, rfl, hw'⟩)
   | clear => exact ⟨[], rfl, WF.empty⟩
   | empty => exact ⟨kids, rfl, hw⟩
-  | update _ => exact absurd hs (by simp [InScope])
+  | update items =>
+    obtain ⟨kids', hk', hw'⟩ := specUpdate_good items kids hw hs
+    simp only [dstep]
+    cases h2 : specUpdate items (.node kids) with
+    | mk t2 o2 =>
+      rw [h2] at hk'; simp only at hk'; subst hk'
+      cases o2 <;> exact ⟨kids', rfl, hw'⟩
   | select _ _ _ => exact absurd hs (by simp [InScope])
-  | exclude _ _ => exact absurd hs (by simp [InScope])
-  | flatten _ _ => exact absurd hs (by simp [InScope])
-  | unflatten _ _ => exact absurd hs (by simp [InScope])
+  | exclude keys inplace =>
+    simp only [dstep]
+    cases inplace
+    · exact ⟨kids, rfl, hw⟩
+    · simp only [if_true]
+      rw [specExclude_eq_sx keys kids hw hs]
+      exact ⟨_, rfl, wf_sx _ _ hw⟩
+  | flatten sep inplace =>
+    have hi : inplace = false := hs
+    subst hi
+    simp only [dstep]
+    split <;> exact ⟨kids, rfl, hw⟩
+  | unflatten sep inplace =>
+    obtain ⟨kids', hk', hw'⟩ := specUnflattenLoop_good sep (rootKeys (.node kids)) kids hw
+    simp only [dstep, specUnflatten]
+    cases h : specUnflattenLoop sep (rootKeys (.node kids)) (.node kids) with
+    | mk t' o =>
+      rw [h] at hk'; simp only at hk'; subst hk'
+      cases inplace <;> cases o <;> simp
+      all_goals (first | exact ⟨kids', rfl, hw'⟩ | exact ⟨kids, rfl, hw⟩ | exact hw' | exact hw)
   | split _ _ _ => exact absurd hs (by simp [InScope])
 
 /-- Histories of any length: the transcribed code and the plain nested dict stay in the same state.
@@ -300,6 +415,43 @@ theorem select_inplace_atomic_counterexample :
     lookup ["a", "y"] (selectT [["a", "x"], ["b", "missing"]] true true t).1 = none ∧
     lookup ["a", "y"] t = some (.leaf false 2) := by
   simp [selectT, maxLen, selectF, selectF.groups, selectScan, groupAdd, dget, dset, lookup]
+
+/-! ## §4b flatten_keys -/
+
+/-- `flatten_keys(sep)` (out of place): separator clashes raise, they never merge two entries: the call fails
+exactly when two leaves get the same flat name (e.g. `{"a": {"b": x}, "a.b": y}`). -/
+theorem flatten_collision_detected (sep : String) (t : Entry) :
+    (∃ e, flattenOut sep t = .error e) ↔ ¬ (flatNames sep t).Nodup := by
+  rw [flattenOut_eq]
+  by_cases h : (flatNames sep t).Nodup <;> simp [h]
+
+/-- …and when it succeeds the flat dict holds exactly the leaves of the nested dict (tensors and non-tensors;
+empty nested tensordicts disappear), each under its joined name, with its value. -/
+theorem flatten_content (sep : String) (kids : Kids) (hw : WF (.node kids)) (r : Entry)
+    (h : flattenOut sep (.node kids) = .ok r) :
+    ∃ fk, r = .node fk ∧ (fk.map (·.1)).Nodup ∧
+      ∀ k e, lookup [k] r = some e ↔ ∃ p, k = joinWith sep p ∧ bound p e kids ∧ e.isLeafFor true = true := by
+  rw [flattenOut_eq] at h
+  by_cases hn : (flatNames sep (.node kids)).Nodup
+  · rw [if_pos hn] at h
+    simp at h; subst h
+    have hkeys : ((flatKids sep (.node kids)).map (·.1)).Nodup := by rw [flatKids_keys]; exact hn
+    refine ⟨_, rfl, hkeys, fun k e => ?_⟩
+    rw [lookup_cons_node]
+    have : (dget k (flatKids sep (.node kids))).bind (lookup []) = dget k (flatKids sep (.node kids)) := by
+      cases dget k (flatKids sep (.node kids)) <;> simp [lookup]
+    rw [this, ← mem_kids_iff_dget hkeys]
+    simp only [flatKids, List.mem_map]
+    constructor
+    · rintro ⟨⟨p, e'⟩, hm, heq⟩
+      simp at heq; obtain ⟨rfl, rfl⟩ := heq
+      exact ⟨p, rfl, (mem_leavesOf kids hw p e').mp hm⟩
+    · rintro ⟨p, rfl, hb⟩
+      exact ⟨(p, e), (mem_leavesOf kids hw p e).mpr hb, rfl⟩
+  · rw [if_neg hn] at h; simp at h
+
+example : flattenOut "." (.node [("a", .node [("b", .leaf false 1)]), ("a.b", .leaf false 2)]) = .error .key := by
+  simp [flattenOut, leavesOf, iterItems, iterItems.go, joinWith, dedup, Entry.isLeafFor]
 
 /-! ## §5 views -/
 
